@@ -15,7 +15,9 @@ RULE = ("Hypothesis draws a tissue (4..30 cells, arcs or lines, any sampling), a
         "returned by stress_tensor are checked for symmetry, 'zero iff no cell centre within the radius' (independent "
         "selection), joint linearity in (pressures, tensions), -p*I for uniform pressure and zero tensions, the "
         "area-weighted mean pressure for arbitrary pressures with zero tensions, count = grid^2; the principal "
-        "stresses stored on the frame must be the eigen-decomposition of the tensor at each grid centre. Non-trivial "
+        "stresses stored on the frame must be the eigen-decomposition of the tensor at each grid centre and be keyed by "
+        "that centre (midpoint of the grid's equal bins over the range of the cell centres, computed independently). "
+        "Non-trivial "
         "= at least one grid cell with and one without cells in range; distinct = fingerprint of drawn parameters.")
 ASSUMPTIONS = [
     "grid cell (row, column) is identified by its bin centre; tensors are read back by enumerating rows and columns",
@@ -181,6 +183,10 @@ def check_case(p, ctx):
     for r in range(grid):
         for c in range(grid):
             key = (xc[r], yc[c])
+            ex, ey = (xb[r] + xb[r + 1]) / 2, (yb[c] + yb[c + 1]) / 2
+            if abs(float(xc[r]) - ex) > 1e-9 * ext or abs(float(yc[c]) - ey) > 1e-9 * ext:
+                return ctx.violation("grid-centre", p, observed=[float(xc[r]), float(yc[c])], expected=[ex, ey],
+                                     detail={"row": r, "col": c, "grid": grid})
             if key not in ps:
                 return ctx.violation("principal-stress-key", p, observed="missing", expected=[float(xc[r]), float(yc[c])])
             w, v = ps[key]
